@@ -323,6 +323,25 @@ fn main() {
         let configs: Vec<usize> = if thorough { vec![0, 1, 2, 3] } else { vec![b % 2, 2 + (b + 1) % 2] };
         check_c_header(&scratch, &format!("g{b}"), &text, &prog, &targets, &configs, &mut stats, &mut issues);
     }
+    // members at offsets of 2^28 .. 2^30 bytes (2^31 .. 2^33 bits: the bit offsets libclang reports
+    // no longer fit 32 bits) and records of more than 2^31 bits
+    {
+        use bgverif::cgraph::{Decl, Member, MemberKind, Record, Ty};
+        let idx = |n: &str| cgen::SCALARS.iter().position(|s| s.0 == n).unwrap();
+        let plain = |name: &str, t: Ty| Member { name: name.into(), kind: MemberKind::Plain(t), aligned: None };
+        let arr = |n: u64| Ty::Array(Box::new(Ty::Scalar(idx("unsigned char"))), vec![n]);
+        let mut decls = vec![];
+        for (i, n) in [0x0100_0000u64, 0x1000_0000, 0x2000_0000, 0x3fff_fff0].into_iter().enumerate() {
+            decls.push(Decl::Record(Record { is_union: i == 3, tag: format!("Huge{i}"), typedef_name: String::new(), packed: false, aligned: None, pragma_pack: None,
+                members: vec![plain("magic", Ty::Scalar(idx("unsigned int"))), plain("ring", arr(n)), plain("head", Ty::Scalar(idx("unsigned int"))),
+                              plain("tail", Ty::Scalar(idx("unsigned short"))), plain("epoch", Ty::Scalar(idx("unsigned long long")))] }));
+        }
+        let prog = Program { decls };
+        let text = prog.c_text();
+        let targets: Vec<&str> = if thorough { TARGETS.to_vec() } else { vec![TARGETS[0], TARGETS[1], TARGETS[2]] };
+        let configs: Vec<usize> = if thorough { vec![0, 1, 2, 3] } else { vec![0, 2] };
+        check_c_header(&scratch, "huge", &text, &prog, &targets, &configs, &mut stats, &mut issues);
+    }
     for b in 0..n_tpl {
         let mut r = rng.fork();
         let targets: Vec<&str> = if thorough { TARGETS.to_vec() } else { vec![TARGETS[b % TARGETS.len()], TARGETS[(b + 5) % TARGETS.len()]] };
